@@ -8,30 +8,116 @@
                             non-output labels of the product of the operand entries).
    Both are tied to /repo and to numpy by harness/props/c11.py on every run.
 
-   THE FULL PROPERTY (for all equations, ranks, shapes, data) is
-
-     forall ta tb out a b, consistent [ta; tb] out [a; b] = true ->
-        einsum2 (eq2 ta tb out) a b = Some (einsum_ref [ta; tb] out [a; b])
-     forall ta out a, consistent [ta] out [a] = true ->
-        einsum_single (eq1 ta out) a = Some (einsum_ref [ta] out [a])
-     tensordot (AxPair xa xb) a b = Some (tensordot_ref xa xb a b)   (valid axes)
-
-   It is NOT proved in full.  What is proved:
+   THE FULL PROPERTY, for all equations, ranks, shapes and data, IS PROVED for the model:
+     (0a) C11_einsum2_correct      two operands (both the matmul path and the pure
+                                   multiplication path; repeated labels, batch labels,
+                                   outer / Hadamard products, size-1 dimensions, any output order)
+     (0b) C11_einsum1_correct      one operand (diagonals, traces, sums, transpositions)
+   Hypotheses: the operand shapes are consistent with the equation (one size function sz
+   gives every occurrence of a label its dimension), the operands are well formed arrays,
+   the output labels are distinct and occur in the inputs, and labels are codes >= 4 (the
+   codes 0..3 are the separators , -> blank and dot of the string encoding).
+   tensordot: the conversion to an equation is covered by BOUNDED theorems (3) and, if
+   present at the end of the file, by `C11_tensordot_*` universal theorems.
+   Further results kept because they are what the chain is made of and because they
+   localise a future failure:
    (1) for ALL inputs: the structure of the plans (classification of the labels is a
        partition, permutations are permutations, reshape targets have the right
        number of elements, the diag/sum/perm bookkeeping of the one-operand plan);
    (2) for ALL shapes and data: the row-major index arithmetic behind reshape
-       (ravel/unravel inverse, fuse, split), getter semantics of every kernel, and
-       the kernels transpose / sum / matmul each equal the reference einsum of the
-       corresponding equation; end-to-end `_partial` theorems for whole families of
-       equations (see the end of the file);
+       (ravel/unravel inverse, fuse, split), and the kernels transpose / sum / matmul
+       each equal the reference einsum of the corresponding equation;
    (3) BOUNDED theorems, exhaustive inside the stated box, by vm_compute, at the
-       probe entries a_i = 256^i, b_j = 256^(|a| j) (see `probe_a`, `probe_b`);
+       probe entries a_i = 256^i, b_j = 256^(|a| j) (see `probe_a`, `probe_b`) -- for
+       einsum they are now subsumed by (0) but they are independent evidence (no proof
+       chain, just evaluation) and they are what covers tensordot;
    (4) one `_refuted` theorem: the faithful model of the tensordot parser is wrong
-       for a negative axis of the second operand (a finding, replayed on the code). *)
+       for a negative axis of the second operand (a finding, replayed on the code).
+   What the theorems do NOT cover: that the model is the code (executed correspondence,
+   harness/props/c11.py), that numpy's kernels behave as Model/ArrayOps.v says (compared
+   with numpy on integer arrays every run), equations with implicit output or blanks in
+   the two-operand form and negative tensordot axes (findings), shapes that are not
+   consistent (numpy-style broadcasting of 1 against n). *)
 From Coq Require Import Lia ZArith List Sorted.
 From Ctg Require Import Base BMM ArrayOps BaseFacts BMMFacts.
 Import ListNotations.
+
+
+(* ------------------------------------------------------------------ *)
+(* (0) THE FULL THEOREMS                                                *)
+Theorem C11_einsum2_correct : forall (sz : nat -> nat) ta tb out a b,
+  tshape a = map sz ta -> tshape b = map sz tb -> wf_tensor a = true -> wf_tensor b = true ->
+  NoDup out -> incl out (ta ++ tb) ->
+  Forall (fun c => 4 <= c) ta -> Forall (fun c => 4 <= c) tb -> Forall (fun c => 4 <= c) out ->
+  einsum2 (eq2 ta tb out) a b = Some (einsum_ref [ta; tb] out [a; b]).
+Proof. exact fin_einsum2_correct_gen. Qed.
+Print Assumptions C11_einsum2_correct.
+
+Theorem C11_einsum1_correct : forall (sz : nat -> nat) lhs out t,
+  tshape t = map sz lhs -> wf_tensor t = true ->
+  Forall (fun c => 4 <= c) lhs -> NoDup out -> incl out lhs ->
+  einsum_single (eq1 lhs out) t = Some (einsum_ref [lhs] out [t]).
+Proof. exact dg_einsum_single. Qed.
+Print Assumptions C11_einsum1_correct.
+
+(* the two execution paths separately (which one is taken is decided by p2_con: the labels
+   of size <> 1 shared by both operands and absent from the output) *)
+Theorem C11_einsum2_matmul_path : forall (sz : nat -> nat) ta tb out a b,
+  tshape a = map sz ta -> tshape b = map sz tb -> wf_tensor a = true -> wf_tensor b = true ->
+  NoDup out -> incl out (ta ++ tb) ->
+  Forall (fun c => 4 <= c) ta -> Forall (fun c => 4 <= c) tb -> Forall (fun c => 4 <= c) out ->
+  p2_con sz ta tb out <> [] ->
+  einsum2 (eq2 ta tb out) a b = Some (einsum_ref [ta; tb] out [a; b]).
+Proof. exact a2_einsum2_bmm. Qed.
+Print Assumptions C11_einsum2_matmul_path.
+
+Theorem C11_einsum2_pure_multiplication_path : forall (sz : nat -> nat) ta tb out a b,
+  tshape a = map sz ta -> tshape b = map sz tb -> wf_tensor a = true -> wf_tensor b = true ->
+  NoDup out -> incl out (ta ++ tb) ->
+  Forall (fun c => 4 <= c) ta -> Forall (fun c => 4 <= c) tb -> Forall (fun c => 4 <= c) out ->
+  p2_con sz ta tb out = [] ->
+  einsum2 (eq2 ta tb out) a b = Some (einsum_ref [ta; tb] out [a; b]).
+Proof. exact q2_einsum2_pure_gen. Qed.
+Print Assumptions C11_einsum2_pure_multiplication_path.
+
+(* the plan the parser returns, explicitly, for arbitrary terms and consistent sizes *)
+Theorem C11_plan_is : forall (sz : nat -> nat) ta tb out,
+  incl out (ta ++ tb) ->
+  Forall (fun c => 4 <= c) ta -> Forall (fun c => 4 <= c) tb -> Forall (fun c => 4 <= c) out ->
+  let bat := p2_bat sz ta tb out in let con := p2_con sz ta tb out in
+  let ak := p2_ak sz ta tb out in let bk := p2_bk sz ta tb out in let sing := p2_sing sz out in
+  con <> [] ->
+  exists p, index_all (sing ++ bat ++ ak ++ bk) out = Some p /\
+    parse_bmm (eq2 ta tb out) (map sz ta) (map sz tb) =
+    Some (mk_pre ta (bat ++ ak ++ con), (mk_pre tb (bat ++ con ++ bk),
+         (pl_gshape sz (pl_lgroups bat ak con), (pl_gshape sz (pl_rgroups bat con bk),
+         (p2_nsab sz sing bat ak bk, (pl_perm p, false)))))).
+Proof. exact p2_plan. Qed.
+Print Assumptions C11_plan_is.
+
+(* algebra of the reference used by the chain: one-operand pre-steps commute into the
+   two-operand reference; a transposition permutes the output labels; size-1 output labels
+   are extra unit axes *)
+Theorem C11_reference_pre_steps_compose : forall (sz : nat -> nat) ta tb o da db a b,
+  incl o (ta ++ tb) ->
+  tshape a = map sz ta -> tshape b = map sz tb ->
+  (forall x, In x da -> In x ta) ->
+  (forall x, In x ta -> In x o -> In x da) ->
+  (forall x, In x ta -> In x tb -> sz x <> 1 -> In x da) ->
+  (forall x, In x da -> In x o \/ In x tb) ->
+  (forall x, In x db -> In x tb) ->
+  (forall x, In x tb -> In x o -> In x db) ->
+  (forall x, In x tb -> In x ta -> sz x <> 1 -> In x db) ->
+  (forall x, In x db -> In x o \/ In x ta) ->
+  einsum_ref [da; db] o [einsum_ref [ta] da [a]; einsum_ref [tb] db [b]] = einsum_ref [ta; tb] o [a; b].
+Proof. exact sg_pre_sum_compose_gen. Qed.
+Print Assumptions C11_reference_pre_steps_compose.
+
+Theorem C11_reference_transpose : forall terms ops mid p,
+  NoDup mid -> is_perm p (length mid) = true ->
+  transpose (einsum_ref terms mid ops) p = Some (einsum_ref terms (map (fun q => nth q mid 0) p) ops).
+Proof. exact cp_transpose_of_ref_gen. Qed.
+Print Assumptions C11_reference_transpose.
 
 (* ------------------------------------------------------------------ *)
 (* (1) structure of the two-operand plan, all inputs                    *)
@@ -311,3 +397,22 @@ Example C11_ex_tensordot :
   tensordot (AxInt 1) a b = Some ([2;2], [22; 28; 49; 64]%Z) /\
   tensordot (AxPair [1%Z;0%Z] [0%Z;1%Z]) a b = Some ([], [86%Z]).
 Proof. vm_compute. repeat split. Qed.
+
+(* the full theorem is not vacuous: 'acbad,ebfbdc->fcdea' with sizes a2 b3 c1 d2 e1 f2
+   (repeated labels, a contracted label, a batch label, two size-1 labels -- one of them in the
+   output --, permuted output) satisfies its hypotheses and is evaluated *)
+Example C11_ex_full :
+  let sz := fun x => match x with 4 => 2 | 5 => 3 | 6 => 1 | 7 => 2 | 8 => 1 | _ => 2 end in
+  let ta := [4;6;5;4;7] in let tb := [8;5;9;5;7;6] in let out := [9;6;7;8;4] in
+  let a : tensor := (map sz ta, map Z.of_nat (seq 1 24)) in
+  let b : tensor := (map sz tb, map Z.of_nat (seq 2 36)) in
+  tshape a = map sz ta /\ tshape b = map sz tb /\ wf_tensor a = true /\ wf_tensor b = true /\
+  NoDup out /\ incl out (ta ++ tb) /\ p2_con sz ta tb out = [5] /\ p2_sing sz out = [6; 8] /\
+  einsum2 (eq2 ta tb out) a b = Some (einsum_ref [ta; tb] out [a; b]) /\
+  tshape (einsum_ref [ta; tb] out [a; b]) = [2; 1; 2; 1; 2].
+Proof.
+  cbv zeta. split; [reflexivity|]. split; [reflexivity|]. split; [reflexivity|]. split; [reflexivity|].
+  split; [repeat constructor; cbn; intuition discriminate|].
+  split; [intros x Hx; cbn in Hx |- *; intuition|].
+  vm_compute. repeat split.
+Qed.
